@@ -379,7 +379,7 @@ impl<'a, B: SddBuilder<'a>> Session<'a, B> {
                     if self.semantic {
                         ev["hash"] = json!(limbs(sem_hash(ptr)));
                     }
-                    if let Some((vt, compress)) = &self.cold {
+                    if let (Some((vt, compress)), "c16") = (&self.cold, mode) {
                         if !matches!(op, "var" | "cnf" | "expr" | "plan") {
                             // C16: the caches of this long-lived builder must not have changed the result
                             let before: Vec<SddPtr> = { let mut q = self.pool.clone(); q[res_slot] = old_in_slot; q };
@@ -443,7 +443,22 @@ impl<'a, B: SddBuilder<'a>> Session<'a, B> {
                 let kind = *rng.pick(&["real", "bool", "ff", "complex", "eu", "poly", "rat", "polyhi"]);
                 let wq = gen_weights(rng, kind, nv, true); // SDD counts are only defined for normalised weights
                 wq.log(&mut ev);
-                count_in(x, &wq, nv, &mut ev)
+                let r = count_in(x, &wq, nv, &mut ev);
+                if let (Some((vt, compress)), "c10", Ok(())) = (&self.cold, mode, &r) {
+                    // purity (C10): the same count on a structural copy of the diagram in a brand-new builder
+                    let mut fresh = json!({});
+                    let fr = guarded(|| {
+                        let mut bm = CompressionSddBuilder::new(vt.clone());
+                        bm.set_compression(*compress);
+                        let y = sdd_copy(&bm, x, &mut HashMap::new());
+                        count_in(y, &wq, nv, &mut fresh)
+                    });
+                    match fr {
+                        Ok(Ok(())) => ev["fresh"] = fresh,
+                        Ok(Err(m)) | Err(m) => ev["fresh"] = json!({"panic": m}),
+                    }
+                }
+                r
             }
             "semhash" => {
                 let a = self.arg(rng);
@@ -536,7 +551,7 @@ pub fn record(args: &Args) {
             let bb = &b;
             run(bb, n, true, &mut rng, &mode, seg_len, &mut out, &|p| bb.cached_semantic_hash(p).value(), None);
         } else {
-            let cold = if mode == "c16" { Some((vt.clone(), compress)) } else { None };
+            let cold = if mode == "c16" || mode == "c10" { Some((vt.clone(), compress)) } else { None };
             let mut b = CompressionSddBuilder::new(vt);
             b.set_compression(compress);
             run(&b, n, false, &mut rng, &mode, seg_len, &mut out, &|_| 0, cold);
